@@ -539,6 +539,73 @@ def _dc_members(spec) -> t.List[t.Any]:
     return out
 
 
+def dc_name_analysis(spec, v):
+    """For mapping data: (bound {field: key}, missing [field], extra [key], dups [key], unspec bool) from the reference field table."""
+    opts = spec.get('opts', {})
+    fields = [f for f in classes_gen.effective_fields(spec) if f.get('init', True)]
+    names = [(f, *classes_gen.input_names(f, opts)) for f in fields]
+    bound, extra, dups = {}, [], []
+    unspec = False
+    for key in v:
+        hit = None
+        for f, firm, soft in names:
+            try:
+                if key in firm:
+                    hit = f
+                    break
+            except TypeError:
+                pass
+        if hit is None:
+            if any(isinstance(key, str) and key in soft for f, firm, soft in names):
+                unspec = True
+            elif not opts.get('allow_extra'):
+                extra.append(key)
+            continue
+        if hit['name'] in bound:
+            dups.append(key)
+            continue
+        bound[hit['name']] = key
+    missing = [f['name'] for f in fields if f['name'] not in bound and not classes_gen.has_default(f)]
+    return bound, missing, extra, dups, unspec
+
+
+def dc_near(spec) -> t.List[t.Any]:
+    """Non-member data specific to dataclasses: duplicate names (also with a failing first occurrence), unknown +
+    missing together, positional data that is too long / too short."""
+    opts = spec.get('opts', {})
+    fields = [f for f in classes_gen.effective_fields(spec) if f.get('init', True)]
+    out: t.List[t.Any] = []
+    full = {}
+    for f in fields:
+        full[classes_gen.input_names(f, opts)[0][0]] = members(f['type'])[0]
+    for f in fields:
+        firm, soft = classes_gen.input_names(f, opts)
+        if len(firm) > 1:
+            good = members(f['type'])[0]
+            d = dict(full)
+            d[firm[1]] = good                       # the same field twice
+            out.append(d)
+            d2 = {firm[0]: [[['bad']]], firm[1]: good, **{k: x for k, x in full.items() if k not in firm}}
+            out.append(d2)                          # first occurrence does not even convert
+            out.append({firm[1]: good, firm[0]: {'bad': None}, **{k: x for k, x in full.items() if k not in firm}})
+    req = [f for f in fields if not classes_gen.has_default(f)]
+    if req:
+        d = {k: x for k, x in full.items() if k not in classes_gen.input_names(req[0], opts)[0]}
+        d['unknown_key'] = 1
+        d['another'] = 2
+        out.append(d)                               # missing + two extras
+    out.append({**full, 'zz': 0, 'yy': 0, 'xx': 0})
+    if 'tuple' in opts.get('in_format', ['struct']):
+        lo, hi = classes_gen.positional_range(spec)
+        pos = [f for f in fields if not f['kw_only']]
+        vals = [members(f['type'])[0] for f in pos]
+        out.append(vals + [None])
+        out.append(vals + [1, 2])
+        if lo > 0:
+            out.append(vals[:lo - 1])
+    return out
+
+
 # ------------------------------------------------------------------ serialisation model (A.7)
 
 def serial_scalar_ok(x) -> bool:
